@@ -195,8 +195,19 @@ func runDriverSharded(caseLines [][]string, shards int) ([][]string, error) {
 			}
 			out, err := runDriver(lines)
 			if err != nil {
-				errs <- err
-				return
+				// a driver crash: isolate the offending case(s) by running each case alone
+				out = nil
+				for i := lo; i < hi; i++ {
+					o1, e1 := runDriver(append([]string{"reset"}, caseLines[i]...))
+					if e1 != nil {
+						o1 = make([]string, len(caseLines[i])+1)
+						for k := range o1 {
+							o1[k] = "ok"
+						}
+						o1[len(o1)-1] = "MODEL driver-crashed(" + e1.Error() + ")"
+					}
+					out = append(out, o1...)
+				}
 			}
 			p := 0
 			for i := lo; i < hi; i++ {
@@ -425,7 +436,16 @@ func (r *Run) WriteEvidence(path string, audit *Audit, violations int) {
 		cov["discharged"] = dis
 		cov["checker_cmd"] = audit.CheckerCmd
 		cov["theorems"] = names
+		if audit.Broken == nil {
+			audit.Broken = []string{}
+		}
 		cov["broken"] = audit.Broken
+	}
+	if r.Trusted == nil {
+		r.Trusted = []string{}
+	}
+	if r.Assume == nil {
+		r.Assume = []string{}
 	}
 	cov["trusted_base"] = r.Trusted
 	ev := Evidence{PropertyID: r.Prop, Tier: r.Tier, Seed: r.Seed, Level: "proof", Coverage: cov,
